@@ -657,6 +657,23 @@ def _run_once(case, cut, mon, viol, record_trace=None):
                               f'gate released and the connection still up; '
                               f'cut={cut} script={_short(case)}'})
                 break
+            # Opening calls depend on the peer *library* answering (open
+            # confirmation / failure, request reply or channel close), not on
+            # what the application does afterwards: with every gate released
+            # and nothing in flight they must have returned or raised.
+            # (judged for single-channel scripts, where the harness's mapping
+            # of server behaviours to sessions cannot be at fault)
+            for name in (tr.pending() if len(case['chans']) == 1 else []):
+                if name.startswith(('run', 'create_process',
+                                    'create_session', 'start_sftp',
+                                    'open_connection', 'forward_remote')):
+                    viol.append({
+                        'mechanism': 'open_call_hangs',
+                        'detail': f'{name} still pending at quiescence with '
+                                  f'every gate released and the connection '
+                                  f'still up; cut={cut} '
+                                  f'script={_short(case)}'})
+                    break
             for name in tr.pending():
                 if 'wait_closed' in name:
                     viol.append({
